@@ -210,6 +210,9 @@ def check(repo, rep):
                             if x[0] == 'attr' and x[1] == ('self',) and x[2] in fdefs_ and x[2] not in MS and x[2] not in BPS:
                                 hi_ = subst_term(hi_, x, fdefs_[x[2]])
                     ok = v[0] == 'sub' and inner(v[1]) and v[2][0] == 'slice' and v[2][1] in (None, ('c', 0), ('c', None)) and hi_ is not None and P.prod(isms, isbps)(hi_)
+                    if not ok and hi_ is not None and any(x[0] == 'attr' and ((x[1][0] == 'attr' and x[1][1] == ('self',) and x[1][2] not in ('_audio_source',)) or (x[1][0] == 'call' and x[1][1][0] == 'g')) for x in walk(hi_)):
+                        rep.unknown('_Limiter.data: the trim %s reads the budget through a helper object held in a field; not followed' % show(hi_)[:80])
+                        continue
                     rep.ob('the limiter trims the recording with the SAME sample budget that read() enforces (round(max_read*rate) samples x bytes per sample)', ok, W(l.node), '_Limiter.data:trim',
                            'data is %s' % show(v)[:140], sample=dict(limiter_data=show(v)[:120]))
     # ---------------------------------------------------------------- 4. reset-completeness of the wrappers and rewind propagation
@@ -272,7 +275,46 @@ def check(repo, rep):
             if ins and rw and not rw[0][1]:
                 hidden |= {x[1] for x in ins[0][0][3][1] if x[0] == 'c'}
                 okhide = True
-    rep.ob('a non-recording AudioReader raises AttributeError for data and rewind', okhide and {'data', 'rewind'} <= hidden, W(gfn), 'AudioReader.__getattr__:hidden', 'hidden names %s' % sorted(hidden), sample=dict(hidden=sorted(hidden)))
+    if not (okhide and {'data', 'rewind'} <= hidden):
+        # the guard has another shape (match statement, nested ifs, a table): decide it by values -- the attribute name and the
+        # recording flag are taken through the conditions of every path; with ("data" | "rewind", not recording) every path that
+        # applies raises AttributeError without asking the wrapped source
+        from ..semantic import evaluator as _ev19
+        from ..termeval import NotEvaluable as _NE19
+        pn_ = ('p', gfn.args.args[1].arg)
+        flags_ = [('attr', ('self',), 'rewindable'), ('attr', ('self',), '_record')]
+        sem_bad, sem_n, undec = None, 0, None
+        for nm_ in ('data', 'rewind'):
+            for l in gl:
+                ok_ = True
+                for ct, tr, _ in l.conds:
+                    if not any(x == pn_ or x in flags_ for x in walk(ct)):
+                        continue
+                    try:
+                        a_ = {pn_: nm_}
+                        a_.update({f_: False for f_ in flags_})
+                        e_ = _ev19(a_)
+                        got = e_.ev(ct)
+                    except _NE19 as exc:
+                        undec = undec or str(exc)
+                        continue
+                    if e_.leaves:
+                        continue
+                    if bool(got) != tr:
+                        ok_ = False
+                        break
+                if not ok_:
+                    continue
+                sem_n += 1
+                asks = any(e[0] == 'call' and e[1][0] == 'call' and e[1][1] == ('b', 'getattr') for e in l.effects)
+                if not (l.outcome == 'raise' and exc_name(l) == 'AttributeError' and not asks) and sem_bad is None:
+                    sem_bad = 'name %r on a non-recording reader can take a path that %s' % (nm_, 'asks the wrapped source' if asks else 'does not raise AttributeError')
+        if undec and sem_bad:
+            rep.unknown('AudioReader.__getattr__: guard not evaluable (%s)' % undec)
+        else:
+            rep.ob('a non-recording AudioReader raises AttributeError for data and rewind', sem_bad is None and sem_n >= 2, W(gfn), 'AudioReader.__getattr__:hidden', sem_bad or 'no path applies', sample=dict(hidden=['data', 'rewind'], decided='by values'))
+    else:
+        rep.ob('a non-recording AudioReader raises AttributeError for data and rewind', True, W(gfn), 'AudioReader.__getattr__:hidden', 'hidden names %s' % sorted(hidden), sample=dict(hidden=sorted(hidden)))
     rwp = None
     for n in cx.cls(mod, 'AudioReader').body:
         if isinstance(n, ast.FunctionDef) and n.name == 'rewindable':
